@@ -96,6 +96,18 @@ func injective(n, l int, f func(seq []int)) {
 // amplitude 100 with a slow drift, shape 1 a staircase with small steps, shape
 // 2 a zigzag whose amplitude grows.
 func longLine(n, shape int) []ipt {
+	if shape == 3 {
+		// a hook: a run of n vertices that zigzags by 8 along y = 0 (spacing 1000),
+		// then the line turns back underneath and sends a spike up to y = 2 between
+		// two vertices in the middle of the run, where the run itself is at y = 4: a
+		// chord along y = 0 over the run would cross the spike
+		var l []ipt
+		for i := 0; i < n; i++ {
+			l = append(l, ipt{int64(1000 * i), int64(8 * (i % 2))})
+		}
+		m := int64(1000*(n/4*2) + 500)
+		return append(l, ipt{int64(1000 * (n + 5)), 0}, ipt{int64(1000 * (n + 5)), -5000}, ipt{m, -5000}, ipt{m, 2}, ipt{m + 100, -4000}, ipt{m + 200, -4500})
+	}
 	l := make([]ipt, n)
 	for k := range l {
 		x := int64(10 * k)
@@ -331,7 +343,10 @@ func enumerate(visit func(idx int64, mk func() Case)) {
 	for _, fam := range []struct {
 		kind string
 		tols []float64
-	}{{"line-small", []float64{0.04, 0.1, 0.3}}, {"line-tiny", []float64{4e-4, 1e-3, 3e-3}}, {"line-huge", []float64{40 * math.Ldexp(1, 80), 100 * math.Ldexp(1, 80), 300 * math.Ldexp(1, 80)}}} {
+	}{{"line-small", []float64{0.04, 0.1, 0.3}}, {"line-tiny", []float64{4e-4, 1e-3, 3e-3}}, {"line-huge", []float64{40 * math.Ldexp(1, 80), 100 * math.Ldexp(1, 80), 300 * math.Ldexp(1, 80)}},
+		// the point set moved (exactly) to (2^22, 3*2^21): the lines are four
+		// orders of magnitude smaller than their coordinates
+		{"line-far", []float64{40, 100, 300}}} {
 		for l := 3; l <= 5; l++ {
 			total := 1
 			for i := 0; i < l; i++ {
@@ -411,6 +426,13 @@ func enumerate(visit func(idx int64, mk func() Case)) {
 				n, shape, tol := n, shape, tol
 				emit(func() Case { return Case{Kind: "line-long", Seq: []int{n, shape}, Tol: tol} })
 			}
+		}
+	}
+	// hooks: long runs within the tolerance and a later spike between run and chord
+	for _, n := range []int{12, 100, 400, 516, 700, 1500} {
+		for _, tol := range []float64{0, 10, 50, 1000} {
+			n, tol := n, tol
+			emit(func() Case { return Case{Kind: "line-long", Seq: []int{n, 3}, Tol: tol} })
 		}
 	}
 	// integer grid family (not in general position): 4x4, length <= 4
@@ -500,7 +522,7 @@ func lenClass(n int) string {
 func execute(c Case) (string, string, bool) {
 	ps := pointSet()
 	switch c.Kind {
-	case "line", "grid-line", "line-small", "line-tiny", "line-huge", "line-sliver", "line-witness", "line-long", "line-flat":
+	case "line", "grid-line", "line-small", "line-tiny", "line-huge", "line-sliver", "line-witness", "line-long", "line-flat", "line-far":
 		li := make([]ipt, len(c.Seq))
 		if c.Kind == "line-long" {
 			li = longLine(c.Seq[0], c.Seq[1])
@@ -537,6 +559,9 @@ func execute(c Case) (string, string, bool) {
 		}
 		for i := range in {
 			in[i].X, in[i].Y = in[i].X/sc, in[i].Y/sc
+			if c.Kind == "line-far" {
+				in[i].X, in[i].Y = in[i].X+4194304, in[i].Y+6291456
+			}
 		}
 		cp := append(geom.LineString{}, in...)
 		var res geom.Geom
@@ -732,7 +757,7 @@ func main() {
 		}
 	}
 	r := report.New("C13", tier, "model_checking")
-	r.Rule = "E1 (isolated workers, 2 GiB address-space limit, 60 s silence horizon): every vertex sequence of length 0..6 (thorough: over 16 points) over a 12-point set with no three points collinear (verified exactly) x tolerances {0,40,100,150,300,1e9}; every sequence of length 3..5 over the same point set scaled by 1e-3, by 1e-5 and (exactly) by 2^80 x 3 scaled tolerances each; every sequence of length 3..6 over an 8-point sliver set (flat triangles, 1..5 degree crossings; no three collinear) at the exact scales 1, 2^-8, 2^-16 x 4 tolerances; every injective sequence of length 3..8 over an 8-point witness set (two-step back-offs) x 5 tolerances and of length 7 over the main set x 3 tolerances; every injective sequence of length 3..6 over a flat 6-point set (extent 10^7 x 0.1) x 4 tolerances of 1e-3..0.1 (chords 10^8..10^10 tolerances long); three shapes of simple x-monotone lines of 63..1000 vertices x 5 tolerances; every sequence of length <= 4 over the plain 4x4 integer grid x 4 tolerances (termination / subsequence / tolerance clauses only); 11 polygons (holes, unclosed, degenerate rings alone and next to rings that lose vertices) x 6 tolerances and all ordered pairs as MultiPolygon; two-member MultiLineStrings. Oracle (every polygon / multi case and every 8th line case also with the vertex slices cut from one flat buffer and called twice: same output, buffer not written): terminates; output is an order-preserving subsequence keeping first and last vertex; an embedding exists in which every dropped vertex is within tol of its replacing segment; exactly simple input => exactly simple output; input unchanged; multi members equal the member simplified alone. Non-trivial = calls that drop at least one vertex."
+	r.Rule = "E1 (isolated workers, 2 GiB address-space limit, 60 s silence horizon): every vertex sequence of length 0..6 (thorough: over 16 points) over a 12-point set with no three points collinear (verified exactly) x tolerances {0,40,100,150,300,1e9}; every sequence of length 3..5 over the same point set scaled by 1e-3, by 1e-5 and (exactly) by 2^80 x 3 scaled tolerances each, and moved (exactly) to (2^22, 3*2^21) x 3 tolerances; every sequence of length 3..6 over an 8-point sliver set (flat triangles, 1..5 degree crossings; no three collinear) at the exact scales 1, 2^-8, 2^-16 x 4 tolerances; every injective sequence of length 3..8 over an 8-point witness set (two-step back-offs) x 5 tolerances and of length 7 over the main set x 3 tolerances; every injective sequence of length 3..6 over a flat 6-point set (extent 10^7 x 0.1) x 4 tolerances of 1e-3..0.1 (chords 10^8..10^10 tolerances long); three shapes of simple x-monotone lines of 63..1000 vertices x 5 tolerances; hooks (a run of 12..1500 vertices within the tolerance and a later spike of the same line between the run and its chord) x 4 tolerances; every sequence of length <= 4 over the plain 4x4 integer grid x 4 tolerances (termination / subsequence / tolerance clauses only); 11 polygons (holes, unclosed, degenerate rings alone and next to rings that lose vertices) x 6 tolerances and all ordered pairs as MultiPolygon; two-member MultiLineStrings. Oracle (every polygon / multi case and every 8th line case also with the vertex slices cut from one flat buffer and called twice: same output, buffer not written): terminates; output is an order-preserving subsequence keeping first and last vertex; an embedding exists in which every dropped vertex is within tol of its replacing segment; exactly simple input => exactly simple output; input unchanged; multi members equal the member simplified alone. Non-trivial = calls that drop at least one vertex."
 	sum := fault.Sweep(r, 16, 2<<20, 60*time.Second, func(idx int64) (string, interface{}) {
 		var sig string
 		var det interface{}
